@@ -12,7 +12,7 @@ PROPS = {
     "C02": {
         "level": "exploration",
         "tests": [
-            {"name": "TestC02", "quick": 400, "thorough": 5000},
+            {"name": "TestC02", "quick": 640, "thorough": 5000},
         ],
     },
     "C03": {
@@ -37,6 +37,9 @@ PROPS = {
         "level": "exploration",
         "tests": [
             {"name": "TestC06", "quick": 1500, "thorough": 40000},
+            # the real command tree; every NewRootCmd call registers one more cobra initializer in the process, so the
+            # cases are spread over many short-lived processes
+            {"name": "TestC06CLI", "quick": 320, "thorough": 4800, "shards_quick": 16},
         ],
     },
     "C07": {
